@@ -145,6 +145,12 @@ class RandInfoBuilder(ModelVisitor,RandIF):
                         field_l = [fi for fi in rs.fields() if fi in fs]
                         if len(field_l) > 0:
                             rs.rand_order_l.append(field_l)
+                    # Fields of the set that no ordering directive mentions are
+                    # randomized last, after all ordered groups
+                    ordered = [fi for g in rs.rand_order_l for fi in g]
+                    rest_l = [fi for fi in rs.fields() if fi not in ordered]
+                    if len(rest_l) > 0:
+                        rs.rand_order_l.append(rest_l)
                 
         # It's important to maintain a fixed order for the
         # unconstrained fields, since this affects their
